@@ -3,7 +3,7 @@ from pyvc.dsl import Prop, Loop, Mod
 
 P = Prop('C09', 'Every reference resolves to the object its label names, wherever the label is')
 F = 'plasTeX/Context.py::'
-P.cls('Node', fields=dict(id='str', idref='dict[str,Node]'))
+P.cls('Node', fields=dict(id='str', idref='dict[str,Node]'), elem='Node')   # a node is falsy when it has no children (__len__)
 P.cls('Context', fields=dict(labels='dict[str,Node]', persistentLabels='dict[str,Node]', refs='dict[str,list[Node]]',
                              currentlabel='Node?'))
 
